@@ -670,7 +670,9 @@ class QueryGarbageCollector(BaseGarbageCollector):
             WHERE 
                 (kind >= 20000 and kind < 30000)
             OR
-                (tags.name = 'expiration' AND (
+                (tags.name = 'expiration'
+                 AND tags.value != '' AND trim(tags.value, '0123456789') = ''
+                 AND (
                     length(tags.value) < length('%NOW%')
                     OR (length(tags.value) = length('%NOW%') AND tags.value < '%NOW%')
                 ))
